@@ -28,7 +28,7 @@ T = {
                 note=SIM + "; exhaustive only up to the stated history length"),
     "C05": dict(level="exploration", engine="simmpi+simh5+driver", design="3/C05",
                 technique="runtime differential monitor: global fields assembled from all simulated ranks after every stage (driver-like stepper on random data with forced process grids) and the real driver's checkpoint files compared between P ranks and the serial run",
-                text="Every stage of the quasi-neutrality pipeline and of the Strang step observed on forced process grids (1,P),(P,1),(a,b) with rotational transform 0 and 0.8 and random global state; the real fullSimulation.main() under simulated MPI + mpio emulation compared between process counts.",
+                text="Every stage of the quasi-neutrality pipeline and of the Strang step observed on forced process grids (1,P),(P,1),(a,b) with rotational transform 0, 0.8 and a sheared profile supplied through the constants' iota(r) hook, and random global state; the real fullSimulation.main() under simulated MPI + mpio emulation compared between process counts.",
                 note=SIM + "; mpio emulation; expected difference is exactly 0, tolerance 1000*eps*scale"),
     "C06": dict(level="exploration", engine="simmpi scheduler", design="3/C06",
                 technique="runtime monitors of the simulated MPI layer (collective matcher, logical deadlock detector, unmatched-rendezvous check, per-rank trace comparison) under enumerated and seeded arrival orders and across interpreter hash seeds (fresh processes)",
@@ -48,7 +48,7 @@ T = {
                 note=REF + "; for periodic spaces only the folded (periodic) basis integrals are demanded"),
     "C10": dict(level="exploration", engine="refmath+simmpi", design="3/C10",
                 technique="runtime differential oracle: real FluxSurfaceAdvection.step/gridStep vs an independent implementation of the stated field-aligned Lagrange formula, plus metamorphic identities on the real code; grid level on simulated ranks",
-                text="Generated set-ups (sizes, degrees, twist, displacement classes incl. beyond one period and on-node feet); every node compared; identities; gridStep on several process grids against the formula with global radius/velocity.",
+                text="Generated set-ups (sizes, degrees, twist, displacement classes incl. beyond one period and on-node feet with cell widths that are not binary fractions; z domains not starting at 0, asymmetric velocity domains); every node compared; identities; gridStep on several process grids against the formula with global radius/velocity.",
                 note=REF + "; " + SIM),
     "C11": dict(level="exploration", engine="refmath+simmpi", design="3/C11",
                 technique="runtime differential oracle: real VParallelAdvection.step vs independent interpolate-and-shift with the three boundary rules; gridStep/gridStepKeepGradient on simulated ranks vs reference from global coordinates",
@@ -80,7 +80,7 @@ T = {
                 note=SIM + "; replicated layouts: sum over one replica set"),
     "C18": dict(level="exploration", engine="simmpi+simh5+driver", design="3/C18",
                 technique="runtime monitor: bitwise round trip of checkpoints through an mpio-emulating h5py layer between different process counts, hyperslab partition check, constants round trip under key permutations and symbolic expressions, checkpoint selection, split-vs-unsplit runs of the real driver",
-                text="Writer/reader process counts 1-6, all three layouts plus the complex potential, restart set-up with and without layout change; constants with perturbed values and non-midpoint peak radius; checkpoint times of 1-7 digits; driver continuity for save intervals 1-4 and all splits N+M<=4 on 1, 2 and 4 ranks.",
+                text="Writer/reader process counts 1-6, all three layouts plus the complex potential, restart set-up with and without layout change; constants with all, none or a random part of the values moved off their defaults and non-midpoint peak radius; checkpoint times of 1-7 digits; driver continuity for save intervals 1-4 and all splits N+M<=4 on 1, 2 and 4 ranks.",
                 note=SIM + "; parallel HDF5 is emulated (collective metadata with equal arguments, disjoint independent hyperslab writes)"),
     "C19": dict(level="translation_validation", engine="scratch pyccel build + sanitizers", design="3/C19",
                 technique="runtime differential testing of every exported kernel: compiled (documented pyccel build of the working tree in a scratch copy; Fortran, thorough also C) vs interpreted source on generated argument streams; same stream and end-to-end workloads under gfortran -fcheck=all + ASan + UBSan; numba/pythran source copies executed as plain Python against the pyccel sources",
